@@ -460,6 +460,10 @@ type exchange struct {
 	// (an idle keep-alive connection timing out on the server). The client finds out when it uses the
 	// pooled connection for the next exchange, and sends a request that is safe to repeat once more.
 	SilentClose bool `json:"silent_close_after,omitempty"`
+	// SkipBody: the caller sets Response.SkipBody before Do (it wants status and header fields only). The body the
+	// server sends all the same must not be left on a connection that goes back to the pool: the next exchange gets
+	// its own response
+	SkipBody bool `json:"caller_sets_skip_body,omitempty"`
 }
 
 type Case struct {
@@ -523,6 +527,7 @@ func checkCase(c *Case) string {
 		cur = i
 		dialsBefore := len(conns)
 		req := ex.Req.build(&c.Cfg, ex.API)
+		cl.SkipNext = ex.SkipBody
 		o := cl.Do(req)
 		protocol.ReleaseRequest(req)
 		id := fmt.Sprintf("exchange #%d (%s %s, body %s/%d; response %d %s body %d)", i, ex.Req.Method, ex.Req.Path, ex.Req.BodyMode, ex.Req.BodyLen, ex.Resp.Status, ex.Resp.Framing, ex.Resp.BodyLen)
@@ -574,7 +579,7 @@ func checkCase(c *Case) string {
 		}
 		// response direction
 		wantBody := ex.Resp.Body
-		if wire.Bodiless(ex.Req.Method, ex.Resp.Status) {
+		if wire.Bodiless(ex.Req.Method, ex.Resp.Status) || ex.SkipBody {
 			wantBody = nil
 		}
 		tooLarge := c.Cfg.MaxRespBody > 0 && len(wantBody) > c.Cfg.MaxRespBody
@@ -705,6 +710,7 @@ func genCase(t *rapid.T) *Case {
 			ex.Cuts = ex.Cuts[:64]
 		}
 		ex.SilentClose = !respCloses(ex.Resp) && rapid.IntRange(0, 5).Draw(t, "silentCloseAfter") == 0
+		ex.SkipBody = ex.Req.Method != "HEAD" && len(ex.Resp.Trailers) == 0 && !c.Cfg.ReuseResp && rapid.IntRange(0, 5).Draw(t, "callerSetsSkipBody") == 0
 		c.Ex = append(c.Ex, ex)
 	}
 	return c
